@@ -286,6 +286,16 @@ def step (st : State) (line : String) : State × String :=
     match i.toNat?.bind (st.regs[·]?) with
     | some s => pushSeq st (.ok s.reverse) showSyms
     | none => pure "ERR:noreg"
+  | ["s_setseq", i, a, b, j] =>      -- seq_i[a:b] = seq_j
+    match i.toNat?, optInt a, optInt b, j.toNat? with
+    | some ri, some a, some b, some rj =>
+      match st.regs[ri]?, st.regs[rj]? with
+      | some s, some item =>
+        match s.setSliceSeq a b item with
+        | .ok s' => ({ st with regs := st.regs.set ri s' }, "ok " ++ showSyms s')
+        | .error e => pure (errS e)
+      | _, _ => pure "ERR:noreg"
+    | _, _, _, _ => pure "bad-op"
   | ["s_astype", i, j] =>
     match i.toNat?, j.toNat? with
     | some ri, some rj =>
